@@ -15,7 +15,7 @@ TRUSTED = [
     "bytes.find/rfind/split, str.split/strip/partition/startswith, UTF-8 decoding, urllib.parse.parse_qs(l)/unquote (latin-1), "
     "email.utils (see C43) — modelled as they behave in CPython 3.12 and exercised by the correspondence stream",
     "the C06 model of HTTPHeaders.parse (part headers, _chars_are_bytes=False) and the C43 model of _parse_header's parameter decoding "
-    "(decode_params / RFC 2231 / collapse); _parseparam is modelled in C30/Model.lean as it is after the fix d01e7a8",
+    "(decode_params / RFC 2231 / collapse); _parseparam is modelled in C30/Model.lean as it is after the fix 112a637",
     "the form encoder used by the generator is the Lean definition Spec.encodeMultipart / encodeMultipart2231 / encodeUrlencoded: "
     "the Python encoder's output is compared with it on every generated form",
 ]
@@ -34,7 +34,7 @@ EXHAUSTIVE = {"quick": False, "thorough": False}
 CLAUSES = {
     "multipart with a boundary occurring nowhere in the content is recovered exactly": "multipart_roundtrip (side condition: boundary without LF — "
         "multipart_roundtrip_refuted shows the clause is false as written for a boundary containing CR LF, which no Content-Type header can carry); "
-        "the former side condition 'no upload whose field name ends in a backslash' is gone with the fix d01e7a8: multipart_disposition_recovered, "
+        "the former side condition 'no upload whose field name ends in a backslash' is gone with the fix 112a637: multipart_disposition_recovered, "
         "multipart_trailing_backslash_fixed / multipart_trailing_backslash_recovered evaluate the old witness",
     "urlencoded forms are recovered exactly": "urlencoded_roundtrip, urlencoded_roundtrip_entry",
     "any other body succeeds or raises HTTPInputError, never another exception": "only_input_error",
